@@ -5,6 +5,8 @@ package c08
 import (
 	"encoding/json"
 	"fmt"
+	"slices"
+	"sort"
 	"strings"
 	"time"
 
@@ -94,15 +96,48 @@ func ruleSets(name, setting, base, upstream string) hx.RuleSetFor {
 	}
 }
 
-// spellings of a path: the designated unreserved octets (up to 5) in raw, upper-hex and lower-hex form.
-func spellings(base string) []string {
-	var pos []int
+// designated returns up to max positions of unreserved octets of the path, the boundaries first: the last and the first
+// octet of the path, the first and last octet of every segment, the unreserved punctuation, then the rest.
+func designated(base string, max int) []int {
+	var prio []int
 
-	for i := 1; i < len(base) && len(pos) < 5; i++ {
-		if base[i] != '/' && (i == 1 || i%2 == 0 || base[i] == '-' || base[i] == '.' || base[i] == '~' || base[i] == '_') {
-			pos = append(pos, i)
+	add := func(i int) {
+		if i > 0 && i < len(base) && base[i] != '/' && !slices.Contains(prio, i) {
+			prio = append(prio, i)
 		}
 	}
+
+	add(len(base) - 1)
+	add(1)
+
+	for i := 1; i < len(base); i++ {
+		if base[i-1] == '/' || i+1 == len(base) || base[i+1] == '/' {
+			add(i)
+		}
+	}
+
+	for i := 1; i < len(base); i++ {
+		if strings.ContainsRune("-._~", rune(base[i])) {
+			add(i)
+		}
+	}
+
+	for i := 1; i < len(base); i++ {
+		add(i)
+	}
+
+	if len(prio) > max {
+		prio = prio[:max]
+	}
+
+	sort.Ints(prio)
+
+	return prio
+}
+
+// spellings of a path: the designated unreserved octets in raw, upper-hex and lower-hex form.
+func spellings(base string, max int) []string {
+	pos := designated(base, max)
 
 	total := 1
 	for range pos {
@@ -312,8 +347,8 @@ func Check() *engine.Check {
 		ID:    "C08",
 		Level: "exploration",
 		Rule: "5 rule-set shapes (literal, single wildcard, single wildcard with path_params, free wildcard — each next to a /** catch-all — and " +
-			"default rule only) x 3 allow_encoded_slashes settings x 3 canonical paths x (every spelling with any subset of up to 5 designated " +
-			"unreserved octets percent-encoded in upper or lower hex = 3^5 per path, and %2F / %2f inserted at every position of the last segment) " +
+			"default rule only) x 3 allow_encoded_slashes settings x 3 canonical paths x (every spelling with any subset of the designated " +
+			"unreserved octets - 6 quick / 9 thorough, always including the first and last octet of the path and of every segment - percent-encoded in upper or lower hex = 3^n per path, and %2F / %2f inserted at every position of the last segment) " +
 			"x decision and proxy service, sent as raw request bytes through http.ReadRequest and the real handler chains with real mechanisms; " +
 			"oracle: metamorphic equality with the canonical spelling (rule, captures, decision) and the encoded-slash table of the statement. " +
 			"Non-trivial = spelling differs from the canonical one or contains an encoded slash.",
@@ -375,12 +410,12 @@ func run(c *engine.Ctx) {
 
 				err := withFixture(name, setting, base, func(apps *hx.Apps) {
 					for _, svc := range []string{"decision", "proxy"} {
-						sp := spellings(base)
-						for i, p := range sp {
-							if c.Quick() && i%3 != 0 && i%7 != 0 {
-								continue
-							}
+						npos := 6
+						if !c.Quick() {
+							npos = 9
+						}
 
+						for _, p := range spellings(base, npos) {
 							judge(c, apps, &Case{name, setting, base, p, "unreserved", svc})
 						}
 
